@@ -2,4 +2,4 @@
    prod, unit, sumbool map to OCaml's own; nat, Z, positive stay the inductive types. *)
 From Coq Require Import ExtrOcamlBasic ZArith.
 From GB Require Import Instances.
-Extraction "gbmodel.ml" h_upsert h_delete h_search h_scan h_inv_b h_entries h_put h_remove h_lookup h_from add_cb h_check_order.
+Extraction "gbmodel.ml" h_upsert h_delete h_search h_scan h_inv_b h_entries h_put h_remove h_lookup h_from add_cb h_check_order h_search_ge h_search_le.
